@@ -33,6 +33,7 @@ def dispatch (op : String) (args : List String) (impl : String) : Answer :=
   | "C11.signed" => c11Signed args impl
   | "C10.change" => c10Change args impl
   | "C12.fund" => c12Fund args impl
+  | "C12.fromtx" => c12FromTx args impl
   | "C09.njtx" => c09NodeTx args impl
   | "C09.rawjson" => noPanicOnly impl
   | "C09.alloc" => c09Alloc args impl
